@@ -38,6 +38,11 @@ characters, PRINT zones, key bar contents, a PRINT newline issued in the column-
 column 1, LOCATE with omitted coordinates, cursor position after a failed LOCATE, anything
 written while the cursor is below the scroll window (row 25).  In those cases the model is
 re-synchronised from get_chars/CSRLIN/POS and only the invariants are checked.
+Pages: which page numbers are valid (SCREEN ,,a,v and PCOPY may fail with any error for any number;
+then no page changes but for the message on the active page), the cursor position after a page
+switch, what a mode change leaves on the pages (all references are dropped), and the content of
+a hidden active page after output the placement model does not predict (unknown until the page
+is next shown).
 
 Observation surfaces: statement output, evaluate (CSRLIN, POS, SCREEN), get_chars, get_pixels,
 video signals.  One exception, stated here and in the report: C30 needs the pixel buffers of
